@@ -565,8 +565,9 @@ impl<'a> Gen<'a> {
                 0 => Variant::ResultAware { fail: false },
                 1 => Variant::Guard(GuardEnd::CompleteWith),
                 2 => Variant::Guard(GuardEnd::Complete),
-                // `new_span!` + `frame.in_future`
-                3 | 4 => Variant::Manual {
+                // `new_span!` + `frame.in_future` (not for a future that is never polled: the pair
+                // would be created - and the sampler asked - for a span nothing can be observed of)
+                3 | 4 if left > 0 => Variant::Manual {
                     travel: Travel::Task,
                     when: !tp && self.g.bool(),
                     complete_with: self.g.bool(),
@@ -743,6 +744,10 @@ impl<'a> Gen<'a> {
                 }
             }
             for s in flat.iter_mut() {
+                // (a future that is hand-polled and dropped right here never yields outwards)
+                if let Step::Child { via: Via::Cancel { .. }, .. } = s {
+                    continue;
+                }
                 if let Step::Child { node, .. } = s {
                     node.is_async = false;
                     if let Variant::Manual { travel, .. } = &mut node.variant {
